@@ -21,6 +21,8 @@ type registration struct {
 	owner string // enclosing constructor function (Equal, Less, Add, ...)
 	// bind: function valued fields/parameters of a registration helper, bound at the helper's call site in owner
 	bind map[types.Object]*ast.FuncLit
+	// site: the call of the registration helper in owner (nil for a direct registration)
+	site *ast.CallExpr
 }
 
 func (c *Ctx) registrations() []registration {
@@ -120,10 +122,30 @@ func (c *Ctx) registrations() []registration {
 				if len(bind) == 0 {
 					return true
 				}
+				// parameters of the helper that carry the type ids of the cell
+				paramIdx := map[types.Object]int{}
+				pi := 0
+				for _, fl := range hd.Type.Params.List {
+					for _, nm := range fl.Names {
+						paramIdx[info.Defs[nm]] = pi
+						pi++
+					}
+				}
 				for _, r := range inner {
 					r2 := r
 					r2.owner = caller.Name.Name
 					r2.bind = bind
+					r2.types = nil
+					for _, t := range r.types {
+						if id, ok := ast.Unparen(t).(*ast.Ident); ok {
+							if k, ok := paramIdx[info.ObjectOf(id)]; ok && k < len(call.Args) {
+								r2.types = append(r2.types, call.Args[k])
+								continue
+							}
+						}
+						r2.types = append(r2.types, t)
+					}
+					r2.site = call
 					extra = append(extra, r2)
 				}
 				return true
@@ -341,6 +363,22 @@ func ruleR141(c *Ctx) {
 						li, ri := idx(icmp.X), idx(icmp.Y)
 						if li >= 0 && ri >= 0 {
 							cmp = &ast.BinaryExpr{X: hand.Args[li], OpPos: icmp.OpPos, Op: icmp.Op, Y: hand.Args[ri]}
+						} else {
+							// the operands are handed on as they are (cmp(a, b)): the bound function is the cell
+							ia, ib := -1, -1
+							for i, ha := range hand.Args {
+								if id, ok := ast.Unparen(ha).(*ast.Ident); ok {
+									switch info.ObjectOf(id) {
+									case pa:
+										ia = i
+									case pb:
+										ib = i
+									}
+								}
+							}
+							if ia >= 0 && ib >= 0 {
+								cmp, pa, pb = icmp, ip[ia], ip[ib]
+							}
 						}
 					}
 				}
@@ -353,7 +391,11 @@ func ruleR141(c *Ctx) {
 				if !mentions(info, e, p) || mentions(info, e, other) {
 					return "", false
 				}
-				return paramRe.ReplaceAllString(nodeStr(c.Fset, e), "x"), true
+				re := paramRe
+				if p.Name() != "a" && p.Name() != "b" {
+					re = regexp.MustCompile(`\b` + regexp.QuoteMeta(p.Name()) + `\b`)
+				}
+				return re.ReplaceAllString(nodeStr(c.Fset, e), "x"), true
 			}
 			l, ok1 := norm(cmp.X, pa, pb)
 			rr, ok2 := norm(cmp.Y, pb, pa)
@@ -379,22 +421,22 @@ func ruleR141(c *Ctx) {
 		for pair, ce := range cells {
 			key := fmt.Sprintf("value.%s#cell(%s,%s)", owner, pair[0], pair[1])
 			if ce.op != wantOp {
-				c.Violation(key, ce.r.call.Pos(), "the cell of the %s matrix uses the Go operator %s", owner, ce.op)
+				c.Violation(key, regPos(ce.r), "the cell of the %s matrix uses the Go operator %s", owner, ce.op)
 				continue
 			}
 			if pair[0] == pair[1] {
-				c.Check(ce.left == ce.right, key, ce.r.call.Pos(), "both operands are converted alike", fmt.Sprintf("the operands of a same-type cell are converted differently (%s vs %s)", ce.left, ce.right))
+				c.Check(ce.left == ce.right, key, regPos(ce.r), "both operands are converted alike", fmt.Sprintf("the operands of a same-type cell are converted differently (%s vs %s)", ce.left, ce.right))
 				continue
 			}
 			mir, ok := cells[[2]string{pair[1], pair[0]}]
 			if !ok {
-				c.Violation(key, ce.r.call.Pos(), "the %s matrix has a cell for (%s,%s) but none for (%s,%s): the operator works in one operand order only (it is not symmetric / a>b is not b<a)", owner, pair[0], pair[1], pair[1], pair[0])
+				c.Violation(key, regPos(ce.r), "the %s matrix has a cell for (%s,%s) but none for (%s,%s): the operator works in one operand order only (it is not symmetric / a>b is not b<a)", owner, pair[0], pair[1], pair[1], pair[0])
 				continue
 			}
 			if ce.left == mir.right && ce.right == mir.left {
-				c.OK(key, ce.r.call.Pos(), "mirror image of the cell (%s,%s): each operand type is converted the same way on either side", pair[1], pair[0])
+				c.OK(key, regPos(ce.r), "mirror image of the cell (%s,%s): each operand type is converted the same way on either side", pair[1], pair[0])
 			} else {
-				c.Violation(key, ce.r.call.Pos(), "the cells (%s,%s) and (%s,%s) are no mirror images: %s is converted as %s in one and as %s in the other: x=y and y=x (resp. x<y and y>x) can differ", pair[0], pair[1], pair[1], pair[0], pair[0], ce.left, mir.right)
+				c.Violation(key, regPos(ce.r), "the cells (%s,%s) and (%s,%s) are no mirror images: %s is converted as %s in one and as %s in the other: x=y and y=x (resp. x<y and y>x) can differ", pair[0], pair[1], pair[1], pair[0], pair[0], ce.left, mir.right)
 			}
 		}
 	}
@@ -843,4 +885,12 @@ func ruleR147(c *Ctx) {
 		}
 		c.Check(ok, key, fd.Pos(), recv+".Equals can report equality only after the two sizes were compared and found equal", recv+".Equals can report 'equal' on a path where the sizes were not compared: a container that is a proper prefix/subset of the other compares equal, and = is no longer symmetric")
 	}
+}
+
+// regPos: where a registration is written in its owner (the call of the registration helper, if any).
+func regPos(r registration) token.Pos {
+	if r.site != nil {
+		return r.site.Pos()
+	}
+	return r.call.Pos()
 }
